@@ -40,3 +40,23 @@ reg("C09", "runtime monitoring: three real rebuild routes per instance of the op
 reg("C10", "runtime monitoring: differential of the real parser against ast.literal_eval with a recording stub, execution monitor (sys.addaudithook + file canary) on hostile strings, str()->get_quantizer functional round trip over the option lattice",
     "A: 16k generated call strings over the literal grammar (random whitespace, positional/keyword mixes, one separator-carrying literal at most) must give the stub exactly Python's args/kwargs (value and type); misordered calls must raise SyntaxError; lattice options written as Python calls must build the same object for all 14 classes; 20 payload families are parsed under an audit hook with a positive control. B: str(q) of every lattice instance must re-parse to a functionally equal quantizer; consumers' strings likewise.",
     "Audit hooks see CPython-level events only; tuples/hex/underscore ints are outside the statement.", "5/C10")
+
+reg("C11", "runtime monitoring: reference-model oracle (stock tf_keras layer fed the layer's own quantizers applied to its weights) + quantizer-call monitor for accounting",
+    "640 (quick) / 8000 (thorough) generated layer instances over 12 layer kinds x geometry x quantizer choices per tensor role, dyadic weights and inputs: output must equal the stock layer on q_i(w_i) followed by the activation quantizer (exact on dyadic data), and the call monitor must see each reported quantizer applied to exactly its own weight tensor.",
+    "QConv2DTranspose-family layers cannot run under TF 2.21; channels_last only.", "5/C11")
+
+reg("C12", "runtime monitoring: snapshot/compare hooks around model_quantize + per-layer oracle from an independent reading of the dictionary semantics",
+    "Generated float models (sequential and branched, 2..8 layers over 16 layer classes) x generated dictionaries (per-name, per-class, conflicting, partial, activation maps) x activation_bits x transfer_weights: topology, names, shapes, hyper-parameters preserved; selected layers carry the quantizers the quantized class builds from the configured strings; unselected layers untouched; caller's model, weights and dictionaries unmodified; weights transferred.",
+    "Expected quantizers are obtained by constructing the quantized class directly from the strings.", "5/C12")
+
+reg("C13", "runtime monitoring: three real round-trip routes per generated quantized model, bit-exact prediction and per-layer quantizer comparison",
+    "Generated quantized models over every callable layer class of the custom-object table with non-default quantizer objects per tensor role and random weights; JSON+set_weights, clone_model and HDF5 save/load_qmodel (no user custom objects) must give bit-identical outputs on 3 batches (+predict) and identical quantizer class+config for every layer, cell and wrapped layer.",
+    "Same process / same kernels, so bit equality is legitimate; QConv2DTranspose config-only.", "5/C13")
+
+reg("C14", "runtime monitoring: weight snapshots before/after one and two exports; quantize-once, HW-tuple, BN-fusing-algebra, invariance and idempotence oracles",
+    "Generated quantized models x quantizer family (fixed, po2, auto_po2, binary/ternary constant or auto, frozen with the library's utility) x weights with exact zeros and breakpoint values: stored weight == its quantizer applied once to the snapshot (paired by tensor meaning); dictionary relations sign*2^w / scale*w / plain; bn_inv and fused_bias equal the BN algebra; pooling factors; predictions unchanged and second export idempotent when all scales are data-independent.",
+    "BN algebra compared to rtol 2e-5.", "5/C14")
+
+reg("C15", "runtime monitoring: reference-model oracles for folded layers (conv followed by stock BN; conv with the quantized folded tensors) and fold/unfold model equivalence",
+    "420 (quick) folded-layer configurations over both classes x folding mode x bias/center/scale x geometry x extreme BN statistics x quantizers, plus generated sequential/branched conv+BN models folded through model_quantize(enable_bn_folding=True) and unfolded again: which layers fold, folded-vs-float and folded-vs-unfolded predictions.",
+    "Unquantized equality to 1e-4 relative; model-level float comparison with 20-bit quantizers.", "5/C15")
